@@ -212,76 +212,7 @@ func checkC05(c *Ctx) {
 	checkEligibility(c, "R3")
 
 	// ---------------- R4
-	for _, ss := range p.FieldStores("TablePlayerState", "Bankroll") {
-		shape, _ := classifyBankrollStore(p, ss)
-		f := ss.Fn
-		where := p.InstrPos(ss.Instr)
-		switch shape {
-		case "ctor":
-			continue
-		case "settle-final", "settle-delta":
-			// the continue step refreshes every player
-			ok := false
-			d := "the continue step does not refresh has-chips for every player from Bankroll > 0"
-			for _, ci := range Calls(lc.continueFn) {
-				cs := p.CallSym(ci)
-				if cs.Name != "SeatManager.UpdatePlayerHasChips" {
-					continue
-				}
-				id, val := cs.Args[1].Strip(), cs.Args[2].Strip()
-				if !id.IsField("TablePlayerState", "PlayerID") {
-					continue
-				}
-				pl := id.Args[0].Strip()
-				if pl.Kind != "index" || !pl.Args[0].Strip().IsField("TableState", "PlayerStates") || !fullRange(pl.Args[1], func(x *Sym) bool { return x.IsField("TableState", "PlayerStates") }) {
-					d = "has-chips refresh does not cover the full player list"
-					continue
-				}
-				if !(val.Kind == "binop" && val.Name == ">" && val.Args[0].Strip().IsField("TablePlayerState", "Bankroll") && val.Args[0].Strip().Args[0].Strip().String() == pl.String() && val.Args[1].Strip().Name == "0") {
-					d = "has-chips is refreshed from " + val.String() + ", not from that player's Bankroll > 0"
-					continue
-				}
-				hdr := pl.Args[1].Strip().Ind.Phi.Block()
-				if body := loopBodyHead(hdr); body == nil || ci.Block() != body {
-					d = "the has-chips refresh can be skipped inside the loop"
-					continue
-				}
-				ok = true
-			}
-			c.Check(ok, "R4", "refresh:settlement→continue", where, "continue step refreshes has-chips of every player from Bankroll > 0", d)
-		default:
-			// a top-up (or anything else): must tell the seat manager about this player
-			pl := ss.Addr.Strip().Args[0].Strip()
-			ok := false
-			d := "chips are added to a player without refreshing the seat manager's has-chips flag: a busted player who tops up this way stays ineligible"
-			for _, ci := range Calls(f) {
-				cs := p.CallSym(ci)
-				if cs.Name != "SeatManager.UpdatePlayerHasChips" {
-					continue
-				}
-				id := cs.Args[1].Strip()
-				same := id.IsField("TablePlayerState", "PlayerID") && id.Args[0].Strip().String() == pl.String() ||
-					id.IsField("JoinPlayer", "PlayerID") && pl.Kind == "index" && pl.Args[1].Strip().IsCall("Table.FindPlayerIdx") && pl.Args[1].Strip().Args[1].Strip().String() == id.String()
-				if !same {
-					d = "has-chips is refreshed for a different player (" + id.String() + ")"
-					continue
-				}
-				val := cs.Args[2].Strip()
-				tr, isB := val.ConstBool()
-				valOK := isB && tr || val.Kind == "binop" && val.Name == ">" && val.Args[0].Strip().IsField("TablePlayerState", "Bankroll")
-				if !valOK {
-					d = "has-chips is refreshed with " + val.String()
-					continue
-				}
-				if Dominates(ci, ss.Instr) || mustPass(ss.Instr, ci) {
-					ok = true
-				} else {
-					d = "a path credits the chips without refreshing has-chips"
-				}
-			}
-			c.Check(ok, "R4", "refresh:"+FuncName(f), where, "has-chips refreshed for the credited player", d)
-		}
-	}
+	checkHasChipsRefresh(c, "R4", lc)
 
 	// ---------------- R5
 	for _, name := range []string{"AssignSeats", "RandomAssignSeats"} {
@@ -705,4 +636,95 @@ func checkOpenRotation(c *Ctx, rule string) {
 			c.Check(guardedBy(p.Guards(ci), true, isInit), rule, "later-hands-rotate", p.InstrPos(ci), "RotatePositions only when initialised", "positions are rotated before they were ever initialised")
 		}
 	}
+}
+
+// checkHasChipsRefresh: every bankroll writer outside construction tells the seat manager whether that player
+// has chips now (top-ups: the constant true or "new bankroll > 0"; settlement: the continue step's loop over
+// every player with Bankroll > 0). Eligibility — and with it who can be big blind — reads that flag.
+func checkHasChipsRefresh(c *Ctx, rule string, lc *lifecycle) {
+	p := c.P
+	for _, ss := range p.FieldStores("TablePlayerState", "Bankroll") {
+		shape, _ := classifyBankrollStore(p, ss)
+		f := ss.Fn
+		where := p.InstrPos(ss.Instr)
+		switch shape {
+		case "ctor":
+			continue
+		case "settle-final", "settle-delta":
+			// the continue step refreshes every player
+			ok := false
+			d := "the continue step does not refresh has-chips for every player from Bankroll > 0"
+			for _, ci := range Calls(lc.continueFn) {
+				cs := p.CallSym(ci)
+				if cs.Name != "SeatManager.UpdatePlayerHasChips" {
+					continue
+				}
+				id, val := cs.Args[1].Strip(), cs.Args[2].Strip()
+				if !id.IsField("TablePlayerState", "PlayerID") {
+					continue
+				}
+				pl := id.Args[0].Strip()
+				if pl.Kind != "index" || !pl.Args[0].Strip().IsField("TableState", "PlayerStates") || !fullRange(pl.Args[1], func(x *Sym) bool { return x.IsField("TableState", "PlayerStates") }) {
+					d = "has-chips refresh does not cover the full player list"
+					continue
+				}
+				if !(val.Kind == "binop" && val.Name == ">" && val.Args[0].Strip().IsField("TablePlayerState", "Bankroll") && val.Args[0].Strip().Args[0].Strip().String() == pl.String() && val.Args[1].Strip().Name == "0") {
+					d = "has-chips is refreshed from " + val.String() + ", not from that player's Bankroll > 0"
+					continue
+				}
+				hdr := pl.Args[1].Strip().Ind.Phi.Block()
+				if body := loopBodyHead(hdr); body == nil || ci.Block() != body {
+					d = "the has-chips refresh can be skipped inside the loop"
+					continue
+				}
+				ok = true
+			}
+			c.Check(ok, rule, "refresh:settlement→continue", where, "continue step refreshes has-chips of every player from Bankroll > 0", d)
+		default:
+			// a top-up (or anything else): must tell the seat manager about this player
+			pl := ss.Addr.Strip().Args[0].Strip()
+			ok := false
+			d := "chips are added to a player without refreshing the seat manager's has-chips flag: a busted player who tops up this way stays ineligible"
+			for _, ci := range Calls(f) {
+				cs := p.CallSym(ci)
+				if cs.Name != "SeatManager.UpdatePlayerHasChips" {
+					continue
+				}
+				id := cs.Args[1].Strip()
+				same := id.IsField("TablePlayerState", "PlayerID") && id.Args[0].Strip().String() == pl.String() ||
+					id.IsField("JoinPlayer", "PlayerID") && pl.Kind == "index" && pl.Args[1].Strip().IsCall("Table.FindPlayerIdx") && pl.Args[1].Strip().Args[1].Strip().String() == id.String()
+				if !same {
+					d = "has-chips is refreshed for a different player (" + id.String() + ")"
+					continue
+				}
+				val := cs.Args[2].Strip()
+				tr, isB := val.ConstBool()
+				// the flag is the constant true, or "bankroll > 0" of the NEW bankroll: the value being stored
+				// compared with 0, or the same player's field read after the store
+				isPos := val.Kind == "binop" && val.Name == ">" && val.Args[1].Strip().Name == "0"
+				ofStored := isPos && val.Args[0].Strip().String() == ss.Val.Strip().String()
+				ofField := isPos && val.Args[0].Strip().IsField("TablePlayerState", "Bankroll") && val.Args[0].Strip().Args[0].Strip().String() == pl.String()
+				if !(isB && tr || ofStored || ofField) {
+					d = "has-chips is refreshed with " + val.String()
+					continue
+				}
+				if ofField && !ofStored {
+					// a read of the field: it must see the credited bankroll
+					if !mustPass(ss.Instr, ci) || Dominates(ci, ss.Instr) {
+						d = "has-chips is refreshed from the bankroll as it was before the chips were credited: a busted player who tops up stays ineligible until the next hand has been played"
+						continue
+					}
+					ok = true
+					continue
+				}
+				if Dominates(ci, ss.Instr) || mustPass(ss.Instr, ci) {
+					ok = true
+				} else {
+					d = "a path credits the chips without refreshing has-chips"
+				}
+			}
+			c.Check(ok, rule, "refresh:"+FuncName(f), where, "has-chips refreshed for the credited player", d)
+		}
+	}
+
 }
